@@ -116,9 +116,10 @@ Definition known_K8 (c : case) : bool :=
 Definition b2z (b : bool) : Z := if b then 1 else 0.
 
 (* [corr; lighten; darken; saturate; desaturate; opacify; transparentize; grayscale;
-    lum unclamped; sat unclamped; alpha unclamped; K5; K8] *)
+    lum unclamped; sat unclamped; alpha unclamped; K5; K8; kept in hwb form] *)
 Definition run (c : case) : list Z :=
   [ corr c; b2z (law_lighten c); b2z (law_darken c); b2z (law_saturate c); b2z (law_desaturate c);
     b2z (law_opacify c); b2z (law_transparentize c); b2z (law_grayscale c);
     b2z (unclamped c 2 (amt_q c)); b2z (unclamped c 1 (amt_q c)); b2z (unclamped c 3 (aamt_q c));
-    b2z (known_K5 c); b2z (known_K8 c) ].
+    b2z (known_K5 c); b2z (known_K8 c);
+    b2z (match base c with Some (CHwba _) => true | _ => false end) ].
